@@ -242,3 +242,25 @@ Proof.
     split; [vm_compute; repeat constructor; discriminate|]. vm_compute; reflexivity.
   - vm_compute. repeat split; reflexivity.
 Qed.
+
+(* ------------------------------------------------------------------------------------
+   Send side with SetExtensions BETWEEN messages (and ResetOp): [c13_segments_rsv]
+   (model/WriterSeg.v) cuts the history at every SetExtensions / ResetOp; the destination
+   calls made during a segment must parse into whole frames, and every message among them
+   (the open one at the end included) must carry RSV1 on its FIRST frame exactly when the
+   extension list attached during that segment says compressed (and the opcode in force is
+   text or binary), every other reserved bit zero.
+   It holds of EVERY history over Write/ReadFrom/WriteThrough/FlushFragment/Flush/Grow/
+   DisableFlush, SetExtensions (at most one extension, called at rest) and ResetOp from a
+   fresh writer ([seg_op], [set_ext_at_rest] in proofs/WriterSegProofs.v; corollary of
+   C06_history_monitor_set_extensions). *)
+Require Import WriterSeg WriterInv WriterFrameProofs WriterHistProofs WriterResetOpProofs WriterSegProofs.
+
+Theorem C13_set_extensions_rsv1_per_message : forall ops w0,
+  writer_inv w0 -> fresh_writer w0 -> w_op w0 < 16 -> Forall wf_key (w_masks w0) ->
+  (w_exts w0 = [] \/ exists c, w_exts w0 = [c]) ->
+  Forall seg_op ops -> set_ext_at_rest ops w0 -> 28 + 4 * ops_cost ops <= max_int ->
+  c13_segments_rsv (client_side (w_state w0)) (w_op w0) (w_exts w0) (w_buflen w0)
+    (steps_of ops (fst (run_wops ops w0))) (dest_log (w_dest (snd (run_wops ops w0)))) = true.
+Proof. exact c13_segments_hold. Qed.
+Print Assumptions C13_set_extensions_rsv1_per_message.
